@@ -137,6 +137,17 @@ def build_case(spec):
                 gc.EdgeAssemblyChanger().addEdgeAssemblies(core)
     except Exception as e:  # noqa - taking assemblies out / adding edge assemblies are operations of the property, too
         raise SetupRaised(e)
+    prerot = spec.get("prerot", "none")
+    if prerot != "none":
+        # assemblies that were rotated during fuel management: 60 degrees x n through the public Assembly.rotate
+        # (orientation, pins, displacement and boundary data all follow); the case's data are assigned afterwards
+        rr = random.Random(spec["vseed"] + 29)
+        with common.quiet():
+            for a in sorted(core, key=cell_of):
+                n = rr.choice([1, 2, 3, 4, 5, 5, 1, 0]) if (prerot == "all" or rr.random() < 0.5) else 0
+                if n:
+                    a.rotate(math.radians(60.0 * n))
+    rb = random.Random(spec["vseed"] + 41)
     rng = random.Random(spec["vseed"])
     for k, a in enumerate(sorted(core, key=cell_of)):
         a._verifSrc = 1000 + k
@@ -149,6 +160,13 @@ def build_case(spec):
             c0 = rng.randint(1, 100)
             b.p[CORNERPARAM] = [(c0 + 7 * q) / 4.0 for q in range(6)]
             b.p[EDGEPARAM] = [(c0 + 11 * q + 1) / 8.0 for q in range(6)]
+            if spec.get("bnd", "two") == "many" and rb.random() < 0.6:
+                # per-corner / per-edge data on a random subset of blocks and parameters, lists and arrays
+                for n in bnd_names(b):
+                    if n in (CORNERPARAM, EDGEPARAM) or rb.random() < 0.4:
+                        continue
+                    v6 = [rb.randint(1, 4096) / 16.0 for _ in range(6)]
+                    b.p[n] = np.array(v6) if rb.random() < 0.5 else v6
             vals = [rng.randint(1, 512) / 8.0, rng.randint(1, 512) / 8.0]
             b.p[LISTPARAM] = vals if spec.get("arr", "list") == "list" else np.array(vals)
         if spec.get("arr") == "aliased" and cell_of(a) == (0, 0):
@@ -194,10 +212,11 @@ def canon_state(r, ch, ec):
     sfp = r.excore.get("sfp")
     skip = set(getattr(r, "_verifExtraA", {}).values()) | {i for (i, _, _) in (getattr(r, "_verifSfp", None) or [])}
     names = sorted(v.getNum() for v in core.assembliesByName.values() if id(v) not in skip)
-    return "full=%s next=%d convAdded=%s edgeAdded=%s kids=[%s] names=%s" % (
+    return "full=%s next=%d convAdded=%s edgeAdded=%s convList=%s kids=[%s] names=%s" % (
         "T" if core.isFullCore else "F", int(r.p.maxAssemNum),
         common.intlist(a.getNum() for a in ch._newAssembliesAdded),
-        common.intlist(a.getNum() for a in ec._newAssembliesAdded), ",".join(kids), common.intlist(names))
+        common.intlist(a.getNum() for a in ec._newAssembliesAdded),
+        "T" if ch.listOfVolIntegratedParamsToScale else "F", ",".join(kids), common.intlist(names))
 
 
 def init_line(r):
@@ -222,9 +241,45 @@ def par_totals(core):
     return tot
 
 
+_BND = []
+
+
+def bnd_names(b):
+    """names of all CORNERS / EDGES block parameters (what HexBlock._rotateBoundaryParameters looks at)"""
+    if not _BND:
+        from armi.reactor.parameters import ParamLocation
+        _BND.extend(list(b.p.paramDefs.atLocation(ParamLocation.CORNERS).names) +
+                    list(b.p.paramDefs.atLocation(ParamLocation.EDGES).names))
+    return _BND
+
+
+def bnd_val(v):
+    """canonical value of a boundary parameter: kind (list / array / other) and the numbers"""
+    if isinstance(v, np.ndarray):
+        return ("A", tuple(float(x) for x in v.flat))
+    if isinstance(v, list):
+        return ("L", tuple(float(x) for x in v))
+    return ("O", canon_val(v))
+
+
+def bnd_sig(b):
+    return tuple((n, bnd_val(b.p[n])) for n in bnd_names(b))
+
+
+def bnd_turned(sig, k):
+    """the boundary data of a source turned by k * 120 degrees: every 6-long vector shifted by 2k places
+    (new[m] = old[(m - 2k) mod 6]), everything else as it was"""
+    sh = (2 * k) % 6
+    out = []
+    for n, (kind, vals) in sig:
+        if kind in ("A", "L") and len(vals) == 6 and sh:
+            vals = tuple(vals[-sh:] + vals[:-sh])
+        out.append((n, (kind, vals)))
+    return tuple(out)
+
+
 def spatial_sig(b):
-    return (float(b.p.displacementX), float(b.p.displacementY), tuple(float(x) for x in b.p[CORNERPARAM]),
-            tuple(float(x) for x in b.p[EDGEPARAM]))
+    return (float(b.p.displacementX), float(b.p.displacementY), bnd_sig(b))
 
 
 def block_sig(b):
@@ -648,7 +703,13 @@ def sub_line(core, vseed):
                     pins += ["[%d,%d]" % (int(s.i), int(s.j)) for s in sites]
             gn = names[gid] if gid is not None else (-1, 0)
             on = names.get(oid, (-2, 0)) if gid is not None else (-1, 0)
-            blks.append("[%d,%d,%d,%d,%d,%d,%d,[%s]]" % (names[id(b)] + gn + on + (1 if on_own else 0, ",".join(pins))))
+            bv = []
+            for n in bnd_names(b):
+                kind, vals = bnd_val(b.p[n])
+                bv.append(common.ratlist([Fraction(x) for x in vals]) if kind in ("A", "L") else "[]")
+            blks.append("[%d,%d,%d,%d,%d,%d,%d,[%s],%d,[%s]]" % (
+                names[id(b)] + gn + on + (1 if on_own else 0, ",".join(pins), int(round(float(b.p.orientation[2]))),
+                                          ",".join(bv))))
         ents.append("[%d,[%s]]" % (a.getNum(), ",".join(blks)))
     return "[" + ",".join(ents) + "]"
 
@@ -798,6 +859,10 @@ def run_case(ctx, spec, ops, compare=True):
     ctx.count("blocks with a pin lattice", sum(1 for a in core for b in a if b.spatialGrid is not None))
     ctx.count("pin layout " + spec.get("pins", "auto"))
     ctx.count("fixture " + spec.get("fixture", "ref"))
+    ctx.count("prior rotations " + spec.get("prerot", "none"))
+    ctx.count("source assemblies with non-zero orientation", sum(1 for a in core if int(round(float(a[0].p.orientation[2]))) % 360))
+    ctx.count("blocks with more than two boundary vectors",
+              sum(1 for a in core for b in a if sum(1 for _, (k, v) in bnd_sig(b) if k in "AL" and len(v) == 6) > 2))
     had_edges0 = any(on120(cell_of(a)) for a in core)
     full0 = snapshot(r, with_mass=True) if not had_edges0 else None
     pre_convert = None
@@ -833,6 +898,13 @@ def run_case(ctx, spec, ops, compare=True):
         if op in ("convert2", "restore2") and not (core.isFullCore and not ch2._newAssembliesAdded):
             continue                          # the inner changer is only exercised on a core the outer one expanded
         before_inner = canon_state(r, ch, ec) if op in ("convert2", "restore2") else None
+        # calls the property makes no-ops: convert / addEdge / removeEdge on a full core, addEdge through a changer that
+        # already added its edge assemblies: core AND changer bookkeeping stay as they are
+        noop = (was_full and op in ("convert", "addEdge", "removeEdge")) or \
+            (op == "addEdge" and not was_full and bool(ec._newAssembliesAdded))
+        before_noop = (canon_state(r, ch, ec), tuple(ch.listOfVolIntegratedParamsToScale),
+                       tuple(id(a) for a in ch._newAssembliesAdded), tuple(id(a) for a in ec._newAssembliesAdded)) \
+            if noop else None
         if op == "solveScale":
             pairs = edge_pairs(core)
             if core.isFullCore or not pairs or not lines_aligned(core):
@@ -870,6 +942,7 @@ def run_case(ctx, spec, ops, compare=True):
         ctx.count("op " + op + (" (raised)" if raised is not None else ""))
         ctx.distinct.add(("op", op, was_full, bool(spec.get("track")), shape_before, spec["rings"], len(spec["holes"]), bool(spec.get("edges0")),
                           spec.get("arr", "list"), spec.get("pins", "auto"), spec.get("fixture", "ref"),
+                          spec.get("prerot", "none"), spec.get("bnd", "two"),
                           "ok" if raised is None else type(raised).__name__))
         req.append(op)
         if raised is not None:
@@ -891,6 +964,17 @@ def run_case(ctx, spec, ops, compare=True):
             fails.append(Failure("inner-changer-noop-touches-core", "a second changer whose convert() was a no-op (core already "
                                  "full) leaves the full core untouched, also in its restorePreviousGeometry()", case,
                                  observed={"symmetry": str(core.symmetry), "assemblies": len(core)}, note=tag))
+        if before_noop is not None and raised is None:
+            after_noop = (canon_state(r, ch, ec), tuple(ch.listOfVolIntegratedParamsToScale),
+                          tuple(id(a) for a in ch._newAssembliesAdded), tuple(id(a) for a in ec._newAssembliesAdded))
+            ctx.count("redundant call " + op)
+            if after_noop != before_noop:
+                what = ["core state", "list of parameters to scale", "assemblies the conversion added",
+                        "edge assemblies added"]
+                fails.append(Failure("redundant-call-not-a-noop", "a redundant call (convert / addEdge / removeEdge on a core "
+                                     "that is already full, addEdge twice) leaves the core and what the changer remembers for "
+                                     "undoing as they were", case,
+                                     observed=[w for w, x, y in zip(what, before_noop, after_noop) if x != y], note=tag))
         lookups_ok(r, fails, case, tag)
         sub_ok(r, fails, case, tag, base_sub)
         if raised is None and op == "addEdge" and not core.isFullCore:
@@ -1044,7 +1128,7 @@ def check_full(r, pre, fails, case, tag):
             # displacement vector rotated by the copy's angle (from the ORIGINAL x and y), corner / edge vectors shifted
             # by two positions per 120 degrees (iterables.pivot(v, -rotNum)); the source itself untouched
             ang = math.radians(120.0 * k)
-            for bi, (b, (dx, dy, corn, edge)) in enumerate(zip(a, pre["spatial"][c])):
+            for bi, (b, (dx, dy, bsig)) in enumerate(zip(a, pre["spatial"][c])):
                 ex = dx * math.cos(ang) - dy * math.sin(ang)
                 ey = dx * math.sin(ang) + dy * math.cos(ang)
                 gx, gy = float(b.p.displacementX), float(b.p.displacementY)
@@ -1054,13 +1138,14 @@ def check_full(r, pre, fails, case, tag):
                                          "rotated by 120 / 240 degrees (both components, length preserved)", case,
                                          observed=[x, bi, gx, gy], expected=[ex, ey], note=tag))
                     return
-                sh = (2 * k) % 6
-                wantc = tuple(corn[-sh:] + corn[:-sh]) if sh else tuple(corn)
-                wante = tuple(edge[-sh:] + edge[:-sh]) if sh else tuple(edge)
-                if tuple(float(v) for v in b.p[CORNERPARAM]) != wantc or tuple(float(v) for v in b.p[EDGEPARAM]) != wante:
-                    fails.append(Failure("copy-rotated-boundary-params", "corner / edge vectors of a copy are its source's "
-                                         "shifted by the copy's rotation", case,
-                                         observed=[x, bi, list(b.p[CORNERPARAM])], expected=list(wantc), note=tag))
+                wantb, gotb = bnd_turned(bsig, k), bnd_sig(b)
+                if gotb != wantb:
+                    bad = [(n, g, w) for (n, g), (_, w) in zip(gotb, wantb) if g != w]
+                    fails.append(Failure("copy-rotated-boundary-params", "every corner / edge vector of a copy is its "
+                                         "source's shifted by the copy's own turn (2 or 4 sixty-degree steps), whatever "
+                                         "the source's orientation was; same kind (list / array)", case,
+                                         observed=[x, bi, "source orientation %d" % orient, bad[0][0], bad[0][1]],
+                                         expected=bad[0][2], note=tag))
                     return
             full = c in pre.get("deep", [])
             want = rot_pins(pre["allpins"][c] if full else pre["pins"][c], k)
@@ -1108,10 +1193,24 @@ def gen_spec(rng, kind):
     edges0 = kind == "plain" and rng.random() < 0.25
     return {"rings": rings, "holes": sorted(holes), "edges0": edges0, "vseed": rng.randint(0, 10 ** 6),
             "arr": rng.choice(["list", "array", "aliased"]), "track": rng.random() < 0.5,
-            "pins": rng.choice(["auto", "partial", "mixed", "mixed"]), "fixture": fixture}
+            "pins": rng.choice(["auto", "partial", "mixed", "mixed"]), "fixture": fixture,
+            "prerot": rng.choice(["none", "some", "some", "all"]), "bnd": rng.choice(["two", "many", "many"])}
+
+
+PHRASES = [["convert", "convert", "restore"], ["convert", "restore", "restore"], ["convert", "convert", "restore", "restore"],
+           ["addEdge", "addEdge", "removeEdge"], ["removeEdge"], ["addEdge", "removeEdge", "removeEdge"],
+           ["convert", "restore", "convert", "restore"], ["convert", "addEdge", "removeEdge", "convert", "restore"],
+           ["addEdge", "convert", "convert", "restore"], ["restore"], ["convert", "convert2", "convert", "restore2", "restore"],
+           ["addEdge", "solveScale", "addEdge", "removeEdge"]]
 
 
 def gen_ops(rng, n):
+    if rng.random() < 0.5:
+        # sequences of phrases with redundant / repeated calls on the same changer objects
+        ops = []
+        while len(ops) < n:
+            ops += rng.choice(PHRASES)
+        return ops[:n + 2]
     ops = []
     for _ in range(n):
         ops.append(rng.choice(["convert", "restore", "addEdge", "removeEdge", "convert", "restore", "solveScale", "addEdge",
@@ -1135,6 +1234,14 @@ def run(ctx):
                  ["addEdge", "solveScale", "removeEdge", "addEdge", "solveScale", "convert", "restore"]))
     plan.append(({"rings": 4, "holes": [], "edges0": False, "vseed": 21, "pins": "mixed"},
                  ["convert", "restore", "addEdge", "removeEdge", "addEdge", "convert", "restore"]))
+    # the same changer objects used again with redundant calls (convert on a full core, restore twice, addEdge twice, ...)
+    plan.append(({"rings": 3, "holes": [], "edges0": False, "vseed": 41, "arr": "array"},
+                 ["convert", "convert", "restore", "restore", "convert", "restore"]))
+    plan.append(({"rings": 4, "holes": [], "edges0": False, "vseed": 42, "prerot": "all", "bnd": "many"},
+                 ["addEdge", "addEdge", "removeEdge", "removeEdge", "convert", "addEdge", "removeEdge", "convert", "restore"]))
+    # sources rotated during fuel management, per-corner / per-edge data on a random subset of blocks
+    plan.append(({"rings": 5, "holes": [[1, 1]], "edges0": False, "vseed": 43, "prerot": "some", "bnd": "many", "arr": "array",
+                  "pins": "mixed"}, ["convert", "restore", "addEdge", "convert", "restore"]))
     plan.append(({"rings": 6, "holes": [], "edges0": False, "vseed": 11, "track": True, "pins": "partial"},
                  ["convert", "restore", "addEdge", "removeEdge", "convert", "restore", "addEdge", "removeEdge"]))
     plan.append(({"rings": 5, "holes": [], "edges0": False, "vseed": 7, "arr": "aliased"},
